@@ -36,7 +36,8 @@ EXTRA = {
             ("t_multipitch", "multipitch.metrics/self", None)],
     "C04": [("t_misc", None, "definition"), ("t_melody", "melody.frames:definition", None),
             ("t_transcription", "transcription.definition", None),
-            ("t_transcription", "transcription_velocity.definition", None)],
+            ("t_transcription", "transcription_velocity.definition", None),
+            ("t_beat", "beat.p_score:mckinney", None)],
     "C05": [("t_transcription", "transcription.definition", None),
             ("t_transcription", "transcription_velocity.definition", None)],
     "C06": [("t_transcription", "transcription.swap", None), ("t_misc", None, "swap"), ("t_pattern", "pattern.swap", None), ("t_multipitch", "multipitch.metrics/swap", None)],
